@@ -16,6 +16,8 @@ import (
 	"github.com/uhppoted/uhppote-core/types"
 	"github.com/uhppoted/uhppote-core/uhppote"
 	"verif/echo"
+	"verif/ops"
+	"verif/spec"
 )
 
 const timeout = 300 * time.Millisecond
@@ -120,6 +122,32 @@ func main() {
 	defer b.stop()
 	lo := netip.MustParseAddr("127.0.0.1")
 	failures := 0
+	// every directed operation concurrently with itself (before anything else has run in this
+	// process, so that lazily initialised package state is first touched by two goroutines at once)
+	{
+		devices := []uhppote.Device{
+			{DeviceID: a.serial, Address: types.ControllerAddrFrom(lo, a.port), Protocol: "udp"},
+			{DeviceID: b.serial, Address: types.ControllerAddrFrom(lo, b.port), Protocol: "tcp"},
+		}
+		u := uhppote.NewUHPPOTE(types.BindAddr{}, types.BroadcastAddrFrom(lo, a.port), types.ListenAddr{}, timeout, devices, false)
+		var wg sync.WaitGroup
+		for i := range spec.Ops {
+			op := &spec.Ops[i]
+			if op.Broadcast {
+				continue
+			}
+			for k := 0; k < 2; k++ {
+				serial := []uint32{a.serial, b.serial}[k]
+				args := ops.Baseline(op)
+				wg.Add(1)
+				go func() {
+					defer wg.Done()
+					ops.Invoke(u, op.Name, serial, args)
+				}()
+			}
+		}
+		wg.Wait()
+	}
 	for rep := 0; rep < reps; rep++ {
 		for _, fixed := range []bool{false, true} {
 			bind := types.BindAddr{}
